@@ -6,6 +6,7 @@ its last deviation, schedules every alternative answer.  Every execution runs to
 Completed bound, executions, choice points and distinct outcomes are reported by the caller.
 """
 import copy
+import json
 
 from .common import HarnessError, pmap, pool
 from .harness import execute
@@ -101,6 +102,8 @@ def explore(base_jobs, kinds, bound, sink, alts=None, pos_ok=None, cap=None, sta
             break
         stats["bound_completed"] = depth
         stage["bound_completed"] = depth
+        # canonical order: which executions a capped level keeps must not depend on worker completion order
+        nxt.sort(key=lambda j: json.dumps(j, sort_keys=True, default=repr))
         level = nxt
         if not level:
             stats["bound_completed"] = bound
